@@ -299,3 +299,13 @@ Lemma crash_after_hash_write :
   let w := reindex alloc0 None (crash_reindex alloc0 None k w0) in
   files w 1 = Some (0, [mkA (Some 10) 1 0; note_new 5]) /\ db w 1 = Some (0, [(10, 1, 0); (1011, 5, 0)]).
 Proof. vm_compute. auto. Qed.
+
+(* REFUTED (known finding partial_removal_commit): the note edited on a later day is stamped by an uninterrupted
+   reindex; after a kill inside remove_file_by_name that made its removal durable, the re-run finds no previous
+   state for it and leaves it unstamped - index and file agree with each other, but not with the uninterrupted run *)
+Lemma partial_removal_not_stamped :
+  let w0 := run alloc0 (w_init [(1, (0, [mkA (Some 10) 0 0; mkA (Some 11) 0 0]))]) [Create; NextDay; Edit 1 (0, [mkA (Some 10) 1 0; mkA (Some 11) 0 0])] in
+  files (reindex alloc0 None w0) 1 = Some (0, [mkA (Some 10) 1 1; mkA (Some 11) 0 0]) /\
+  files (reindex alloc0 None (partial_removal 1 1 w0)) 1 = Some (0, [mkA (Some 10) 1 0; mkA (Some 11) 0 0]) /\
+  db (reindex alloc0 None (partial_removal 1 1 w0)) 1 = Some (0, [(10, 1, 0); (11, 0, 0)]).
+Proof. vm_compute. repeat split. Qed.
